@@ -181,6 +181,11 @@ class SocketConfig:
         if self.url != other.url:
             return False
 
+        # the other options of the socket are part of its configuration too
+        for attr in ('backlog', 'mode', 'owner'):
+            if getattr(self, attr, None) != getattr(other, attr, None):
+                return False
+
         return True
 
     def __ne__(self, other):
